@@ -1,0 +1,13 @@
+//go:build verif
+
+package edwards25519
+
+// Contracts for the deductive checker in /verif (comment-only; compiled only under the verif tag).
+
+// A point is torsion free exactly when multiplying it by the subgroup order (the little-endian integer denoted
+// by the reversed big-endian order bytes) gives the identity.
+//@ func (*Point).IsTorsionFree
+//@   property C13, C14
+//@   bind TwistedEdwardsPointImpl group, *TwistedEdwardsPointImpl groupptr, PP groupptr, P group
+//@   uses multiples leval
+//@   ensures result == (gsmulI(leval(reversed(NewScalarField().Order().Bytes()), 0), p.V) == gzero())
